@@ -1029,12 +1029,11 @@ def _truncation_sweeps(out, spec, st):
         full = head + body
 
         def run(raw):
-            o = io.BytesIO()
-            try:
-                G.convert(io.BytesIO(raw), o)
-                return "ok", o.getvalue()
-            except BaseException as e:  # noqa: BLE001
-                return type(e).__name__, o.getvalue()
+            stt, data = bounded_convert(G.convert, raw)
+            if stt == "timeout":
+                out["sigs"].append(("nontermination:mgetoppm", f"mgetoppm does not return within 8 s on an input of {len(raw)} bytes (concrete sweep)", {"input_hex": raw[:60].hex(), "length": len(raw)}))
+                return "timeout", b""
+            return stt, data
 
         expect = 320 * 200 * 3 + len("P6\n320 200\n255\n")
         pts = list(range(0, 60)) + list(range(len(full) - 8, len(full) + 1))
@@ -1058,12 +1057,11 @@ def _truncation_sweeps(out, spec, st):
         full = head + body
 
         def run(raw):
-            o = io.BytesIO()
-            try:
-                R.convert(io.BytesIO(raw), o)
-                return "ok", o.getvalue()
-            except BaseException as e:  # noqa: BLE001
-                return type(e).__name__, o.getvalue()
+            stt, data = bounded_convert(R.convert, raw)
+            if stt == "timeout":
+                out["sigs"].append(("nontermination:rattoppm", f"rattoppm does not return within 8 s on an input of {len(raw)} bytes (concrete sweep)", {"input_hex": raw[:60].hex(), "length": len(raw)}))
+                return "timeout", b""
+            return stt, data
 
         expect = 320 * 199 * 3 + len("P6\n320 199\n255\n")
         stt, o = run(full)
@@ -1363,6 +1361,52 @@ def history_files():
     return files
 
 
+def bounded_convert(convert, raw, args=(), limit_s=8, real_file=False):
+    """convert(input, output, *args) on these bytes in a forked child under a time limit -> (status, output bytes | None).
+    status 'timeout' = the decoder did not return (the caller reports it; the check itself never hangs)."""
+    import os
+    import signal
+    import tempfile
+    import time as _time
+
+    tmp = tempfile.NamedTemporaryFile(prefix="vfout", delete=False)
+    tmp.close()
+    rfd, wfd = os.pipe()
+    pid = os.fork()
+    if pid == 0:
+        os.close(rfd)
+        o = io.BytesIO()
+        try:
+            if real_file:
+                with real_input(raw) as fin:
+                    r = convert(fin, o, *args)
+            else:
+                r = convert(io.BytesIO(raw), o, *args)
+            stt = "ok" if r is not False else "refused"
+        except BaseException as e:  # noqa: BLE001
+            stt = ("exit:" + str(e.code)) if isinstance(e, SystemExit) else type(e).__name__
+        with open(tmp.name, "wb") as f:
+            f.write(o.getvalue())
+        os.write(wfd, stt.encode())
+        os._exit(0)
+    os.close(wfd)
+    t0 = _time.time()
+    try:
+        while _time.time() - t0 < limit_s:
+            done, _ = os.waitpid(pid, os.WNOHANG)
+            if done:
+                stt = os.read(rfd, 200).decode() or "died"
+                with open(tmp.name, "rb") as f:
+                    return stt, f.read()
+            _time.sleep(0.01)
+        os.kill(pid, signal.SIGKILL)
+        os.waitpid(pid, 0)
+        return "timeout", None
+    finally:
+        os.close(rfd)
+        os.unlink(tmp.name)
+
+
 class real_input:
     """the bytes as a real file opened for reading (pixtopgm asks the file system for the size of f.name)"""
 
@@ -1419,15 +1463,17 @@ def complete_files(ctx):
             ctx.stats["obligations"] += 1
             ctx.stats["programs"] += 1
             ctx.stats["traces_validated_against_impl"] += 1
-            try:
-                import contextlib
+            import contextlib
 
-                with contextlib.redirect_stderr(io.StringIO()), real_input(raw) as fin:
-                    r = mod.convert(fin, out, *args)
-            except BaseException as e:  # noqa: BLE001
-                ctx.violation(f"complete-file:{key}:rejected", f"{key} picture {which} (well-formed, {len(raw)} bytes): {type(e).__name__}", {"decoder": key})
+            with contextlib.redirect_stderr(io.StringIO()):
+                stt_, data = bounded_convert(mod.convert, raw, args, limit_s=20, real_file=True)
+            if stt_ == "timeout":
+                ctx.violation(f"complete-file:{key}:does-not-return", f"{key} picture {which} (well-formed, {len(raw)} bytes): no result within 20 s", {"decoder": key})
                 continue
-            data = out.getvalue()
+            if stt_ not in ("ok", "refused"):
+                ctx.violation(f"complete-file:{key}:rejected", f"{key} picture {which} (well-formed, {len(raw)} bytes): {stt_}", {"decoder": key})
+                continue
+            r = stt_ == "ok"
             m = re.match(rb"(P[56])\n(\d+) (\d+)\n255\n", data)
             if r is False or not m:
                 ctx.violation(f"complete-file:{key}:no-image", f"{key} picture {which}: result {r!r}, output starts {data[:20]!r}", {"decoder": key})
@@ -1482,9 +1528,45 @@ def decoder_history(ctx, decoders):
         import hashlib
 
         fresh = json.loads(pr.stdout)
-        a1 = dec(raw_a, args_a)
-        b1 = dec(raw_b, args_b)
-        a2 = dec(raw_a, args_a)
+        # the three decodes share ONE child process (that is the history); the child is under a time limit
+        import os as _os
+        import pickle as _pickle
+        import signal as _signal
+        import tempfile as _tempfile
+        import time as _time
+
+        resf = _tempfile.NamedTemporaryFile(prefix="vfhist", delete=False)
+        resf.close()
+        cpid = _os.fork()
+        if cpid == 0:
+            try:
+                res = [dec(raw_a, args_a), dec(raw_b, args_b), dec(raw_a, args_a)]
+                with open(resf.name, "wb") as fh:
+                    _pickle.dump(res, fh)
+            finally:
+                _os._exit(0)
+        t0 = _time.time()
+        finished = False
+        while _time.time() - t0 < 60:
+            done_, _st = _os.waitpid(cpid, _os.WNOHANG)
+            if done_:
+                finished = True
+                break
+            _time.sleep(0.02)
+        if not finished:
+            _os.kill(cpid, _signal.SIGKILL)
+            _os.waitpid(cpid, 0)
+            _os.unlink(resf.name)
+            ctx.violation(f"history:{modname}:does-not-return", f"{modname}: decoding picture A, picture B and picture A again in one process does not finish within 60 s", {"decoder": modname})
+            continue
+        try:
+            with open(resf.name, "rb") as fh:
+                a1, b1, a2 = _pickle.load(fh)
+        except Exception:  # noqa: BLE001
+            ctx.harness_gap(f"{key}: the history child process left no result")
+            continue
+        finally:
+            _os.unlink(resf.name)
         ctx.stats["programs"] += 3
         ctx.stats["obligations"] += 2
         ctx.stats["traces_validated_against_impl"] += 1
